@@ -249,10 +249,12 @@ def table_layout(context, table, bottom_space, skip_stack, containing_block,
                     extra = row.baseline - cell.baseline
                     if cell.baseline == row.baseline or not extra:
                         continue
-                    # Don't shift the cells of a row split between pages
-                    # below the page bottom, their content has been laid out
-                    # to fill the page
-                    if (resume_at or skip_stack) and context.overflows_page(
+                    # Don't shift the cells of a row split between pages, or
+                    # of a row that cannot be moved to the next page, below
+                    # the page bottom: their content has been laid out to
+                    # fill the page
+                    cannot_move = resume_at or skip_stack or page_is_empty
+                    if cannot_move and context.overflows_page(
                             bottom_space,
                             cell.position_y + cell.border_height() + extra):
                         continue
